@@ -24,7 +24,8 @@
 (*   agree     loaders, assign, defaults           loader, outcome, values *)
 (*   cli       file[loader, assign], app, flags,   flags, outcome, values  *)
 (*             defaults                            (first result: the same *)
-(*                                                 start without options)  *)
+(*                                                 start without options;  *)
+(*                                                 pairs: then each alone) *)
 (*   rootpath  loader, val                         outcome, value          *)
 (*   bind      via, binds                          outcome, socks          *)
 (*   headers   date, server, alt, protocol, now    outcome, headers,       *)
@@ -84,22 +85,27 @@ CheckAgree(inp, seen, out) ==
 (* ---- the command line ------------------------------------------------------ *)
 (* base: what the start without any option must hand to run() (the configuration file's
    settings and the application); exp: base plus each given option's own setting.
-   A setting no given option owns must keep its base value; when it already differs in
-   the start without options the deviation is the start's, not the option's. *)
+   A trace holds the start without options first, then (for a pair) each option alone,
+   then all options together.  A setting no given option owns must keep its base value;
+   when the same deviation already shows in an earlier start with fewer options it is
+   that start's deviation, so it is reported once, against the smallest set of options. *)
+FlagsIn(r) == {r.flags[j] : j \in 1..Len(r.flags)}
 CheckCli(inp, seen, out) ==
-  LET given == SelectSeq(inp.flags, LAMBDA o : \E j \in 1..Len(out.flags) : out.flags[j] = o.flag)
+  LET given == SelectSeq(inp.flags, LAMBDA o : o.flag \in FlagsIn(out))
       base == EffectiveCli(inp.defaults, inp.file.assign, inp.app, <<>>)
       exp == EffectiveCli(inp.defaults, inp.file.assign, inp.app, given)
       names == FlagNames(out.flags)
       owned == {FlagKey(given[j].flag) : j \in 1..Len(given)}
       OwnerOf(k) == IF k \in owned THEN given[CHOOSE j \in 1..Len(given) : FlagKey(given[j].flag) = k].flag
                     ELSE AppFlag
-      plain == Len(seen) > 0 /\ Len(seen[1].flags) = 0 /\ seen[1].outcome = "ok"
+      smaller == {s \in 1..Len(seen) : /\ seen[s].outcome = "ok"
+                                        /\ FlagsIn(seen[s]) \subseteq FlagsIn(out)
+                                        /\ FlagsIn(seen[s]) # FlagsIn(out)}
       one(i) ==
         IF out.values[i] = exp[i] THEN <<>>
         ELSE IF Keys[i] \in owned \/ Keys[i] = "application_path"
              THEN <<F("wrong-value", "cli:" \o OwnerOf(Keys[i]) \o "->" \o Keys[i])>>
-        ELSE IF Len(out.flags) > 0 /\ (IF plain THEN seen[1].values[i] = out.values[i] ELSE FALSE)
+        ELSE IF \E s \in smaller : seen[s].values[i] = out.values[i]
              THEN <<>>
         ELSE <<F("side-effect", "cli:" \o names \o ":" \o Keys[i])>>
   IN IF out.outcome # "ok" THEN <<F("wrong-value", "cli:" \o names \o ":" \o out.outcome)>>
